@@ -21,6 +21,15 @@ import (
 
 func pick[T any](c *Chooser, label string, alts ...T) T { return alts[c.Pick(len(alts), label)] }
 
+// pickBase is pick with alternative `base` as the default (it is moved to the front).
+func pickBase[T any](c *Chooser, label string, base int, alts ...T) T {
+	if base > 0 && base < len(alts) {
+		r := append([]T{alts[base]}, alts[:base]...)
+		alts = append(r, alts[base+1:]...)
+	}
+	return alts[c.Pick(len(alts), label)]
+}
+
 func patBytes(n int, seed byte) []byte {
 	b := make([]byte, n)
 	for i := range b {
@@ -42,12 +51,22 @@ func buildTS(c *Chooser, l string) cdrFile.CdrHdrTimeStamp {
 }
 
 // buildFile builds one well-formed CDRFile; length and count fields are derived from the content.
-func buildFile(c *Chooser, big bool) cdrFile.CDRFile {
+// With mixed the base structure is a heterogeneous file (high release identifier 7 with extension, low 3; three records:
+// release 7 with a non-zero extension, release 0, release 7) so that single and pairwise deviations reach what
+// depends on the relation between neighbouring records and between the two header identifiers.
+func buildFile(c *Chooser, big bool, mixedOpt ...bool) cdrFile.CDRFile {
+	mixed := len(mixedOpt) > 0 && mixedOpt[0]
+	mb := func(i int) int {
+		if mixed {
+			return i
+		}
+		return 0
+	}
 	var f cdrFile.CDRFile
 	h := &f.Hdr
-	h.HighReleaseIdentifier = pick[uint8](c, "highRel", 0, 1, 2, 3, 4, 5, 6, 7)
+	h.HighReleaseIdentifier = pickBase[uint8](c, "highRel", mb(7), 0, 1, 2, 3, 4, 5, 6, 7)
 	h.HighVersionIdentifier = pick[uint8](c, "highVer", 0, 1, 30, 31)
-	h.LowReleaseIdentifier = pick[uint8](c, "lowRel", 0, 1, 2, 3, 4, 5, 6, 7)
+	h.LowReleaseIdentifier = pickBase[uint8](c, "lowRel", mb(3), 0, 1, 2, 3, 4, 5, 6, 7)
 	h.LowVersionIdentifier = pick[uint8](c, "lowVer", 0, 1, 30, 31)
 	h.FileOpeningTimestamp = buildTS(c, "open")
 	h.TimestampWhenLastCdrWasAppendedToFIle = buildTS(c, "last")
@@ -73,12 +92,12 @@ func buildFile(c *Chooser, big bool) cdrFile.CDRFile {
 	h.LengthOfPrivateExtension = uint16(pl)
 	h.PrivateExtension = patBytes(pl, 9)
 	if h.HighReleaseIdentifier == 7 {
-		h.HighReleaseIdentifierExtension = pick[uint8](c, "highExt", 0, 1, 5, 255)
+		h.HighReleaseIdentifierExtension = pickBase[uint8](c, "highExt", mb(2), 0, 1, 5, 255)
 	}
 	if h.LowReleaseIdentifier == 7 {
 		h.LowReleaseIdentifierExtension = pick[uint8](c, "lowExt", 0, 2, 6, 255)
 	}
-	nrec := pick(c, "records", 1, 0, 2, 3)
+	nrec := pickBase(c, "records", mb(3), 1, 0, 2, 3)
 	for i := 0; i < nrec; i++ {
 		l := fmt.Sprintf("rec%d", i)
 		var r cdrFile.CDR
@@ -89,12 +108,16 @@ func buildFile(c *Chooser, big bool) cdrFile.CDRFile {
 		n := pick(c, l+".len", plens...)
 		r.CdrByte = patBytes(n, byte(0x40+i))
 		r.Hdr.CdrLength = uint16(n)
-		r.Hdr.ReleaseIdentifier = cdrFile.ReleaseIdentifierType(pick[uint8](c, l+".rel", 0, 1, 2, 3, 4, 5, 6, 7))
+		relBase := 0
+		if mixed && i != 1 {
+			relBase = 7
+		}
+		r.Hdr.ReleaseIdentifier = cdrFile.ReleaseIdentifierType(pickBase[uint8](c, l+".rel", relBase, 0, 1, 2, 3, 4, 5, 6, 7))
 		r.Hdr.VersionIdentifier = pick[uint8](c, l+".ver", 0, 1, 30, 31)
 		r.Hdr.DataRecordFormat = cdrFile.DataRecordFormatType(pick[uint8](c, l+".fmt", 1, 2, 3, 4, 0, 7))
 		r.Hdr.TsNumber = cdrFile.TsNumberIdentifier(pick[uint8](c, l+".ts", 0, 17, 24, 31))
 		if r.Hdr.ReleaseIdentifier == 7 {
-			r.Hdr.ReleaseIdentifierExtension = pick[uint8](c, l+".ext", 0, 1, 255)
+			r.Hdr.ReleaseIdentifierExtension = pickBase[uint8](c, l+".ext", mb(3), 0, 1, 255, 0xa5)
 		}
 		f.CdrList = append(f.CdrList, r)
 	}
@@ -239,6 +262,7 @@ type cfArgs struct {
 	K     int    `json:"k"`
 	Big   bool   `json:"big"`
 	Real  bool   `json:"real"`
+	Mixed bool   `json:"mixed,omitempty"`
 }
 
 type cfStats struct {
@@ -313,7 +337,7 @@ func cdrFileJob(t *testing.T, raw json.RawMessage) (any, error) {
 	name := filepath.Join(dir, "verif-c14.cdr")
 	var cur cdrFile.CDRFile
 	idx := 0
-	Enumerate(a.K, func(c *Chooser) { cur = buildFile(c, a.Big) }, func(c *Chooser) bool {
+	Enumerate(a.K, func(c *Chooser) { cur = buildFile(c, a.Big, a.Mixed) }, func(c *Chooser) bool {
 		idx++
 		st.Cases++
 		if idx%a.Parts != a.Part {
@@ -368,11 +392,13 @@ func init() {
 			k := 2
 			for i := 0; i < parts; i++ {
 				jobs = append(jobs, Job{Kind: "cdrfile", Args: mustJSON(cfArgs{Check: prop, Part: i, Parts: parts, K: k, Big: true})})
+				jobs = append(jobs, Job{Kind: "cdrfile", Args: mustJSON(cfArgs{Check: prop, Part: i, Parts: parts, K: k, Big: true, Mixed: true})})
 			}
 			if rep.Tier == "thorough" {
 				// three deviations without the 64 KiB alternatives, and pairs again through the real file system
 				for i := 0; i < 64; i++ {
 					jobs = append(jobs, Job{Kind: "cdrfile", Args: mustJSON(cfArgs{Check: prop, Part: i, Parts: 64, K: 3, Big: false})})
+					jobs = append(jobs, Job{Kind: "cdrfile", Args: mustJSON(cfArgs{Check: prop, Part: i, Parts: 64, K: 3, Big: false, Mixed: true})})
 				}
 			}
 			if prop == "C14" {
@@ -405,7 +431,7 @@ func init() {
 			rep.Cov["traces_validated_against_impl"] = total.Done
 			rep.Cov["evaluations"] = total.Done
 			rep.Cov["distinct_nontrivial"] = total.Distinct
-			rep.Cov["rule"] = "well-formed CDR file structures: base + all single + all pairs of deviations over release identifiers 0..7 (all 64 combinations), version identifiers, every timestamp sub-field at its width boundaries, sequence number, closure reason, node address, lost-CDR indicator, routeing filter / private extension lengths {0,1,4,255,256,65485,65486,65535}, extension octets, 0..3 records with payload lengths {0,1,3,255,256,65535}, per-record release 0..7, version, format, TS number, extension; thorough adds triples; distinct = distinct file encodings"
+			rep.Cov["rule"] = "well-formed CDR file structures, from two base structures (a homogeneous one: release identifiers 0, one record; a heterogeneous one: high release identifier 7 with extension, low 3, three records of release 7+extension / 0 / 7): base + all single + all pairs of deviations over release identifiers 0..7 (all 64 combinations), version identifiers, every timestamp sub-field at its width boundaries, sequence number, closure reason, node address, lost-CDR indicator, routeing filter / private extension lengths {0,1,4,255,256,65485,65486,65535}, extension octets, 0..3 records with payload lengths {0,1,3,255,256,65535}, per-record release 0..7, version, format, TS number, extension; thorough adds triples; distinct = distinct file encodings"
 			rep.Cov["deviation_bound"] = k
 			rep.Cov["exhaustive"] = exhaustive
 			rep.Cov["finding_counts"] = total.Rules
